@@ -113,6 +113,10 @@ def run_tlc(specdir, module, cfg, workers=None, timeout=600, extra=(), files=Non
             fh.write(data)
     meta = os.path.join(work, "meta")
     cmd = ["java", "-XX:+UseParallelGC", "-Xss" + xss]
+    if workers == 1:
+        # trace validation / small runs: many of these run side by side
+        cmd += ["-XX:ParallelGCThreads=2", "-XX:TieredStopAtLevel=1" if False else "-XX:+TieredCompilation"]
+        heap = heap or "3g"
     if heap:
         cmd.append("-Xmx" + heap)
     if queue_dfs:
